@@ -95,6 +95,56 @@ theorem parentP_fine {d : Desc} {P : Nat → Prop} (p : Nat) (optional : Bool) (
       · exact hk _
       · exact errP_fine _ _ _
 
+theorem pageRefP_fine {d : Desc} {P : Nat → Prop} (p : Nat) (k : CacheDoc.P)
+    (hp : P p) (hk : Fine (filtersOf d) P k) : Fine (filtersOf d) P (pageRefP d p k) := by
+  unfold pageRefP
+  refine .get _ _ _ hp fun x hx => ?_
+  cases x with
+  | oof => exact absurd rfl hx
+  | err e =>
+    simp only
+    split
+    · exact hk
+    · exact errP_fine _ _ _
+  | ok v =>
+    cases v with
+    | leaf i q => exact hk
+    | _ =>
+      simp only
+      split
+      · exact hk
+      · exact errP_fine _ _ _
+
+theorem annotsLoop_fine {d : Desc} {P : Nat → Prop} : ∀ (ids acc : List Nat), (∀ a ∈ ids, P a) →
+    Fine (filtersOf d) P (annotsLoop ids acc) := by
+  intro ids
+  induction ids with
+  | nil => intro acc _; exact okP_fine _ _ _
+  | cons a rest ih =>
+    intro acc h
+    simp only [annotsLoop]
+    refine .get _ _ _ (h a (by simp)) fun x hx => ?_
+    cases x with
+    | oof => exact absurd rfl hx
+    | err e => exact errP_fine _ _ _
+    | ok v => exact ih _ fun b hb => h b (by simp [hb])
+
+/-- the initialiser of a `Lazy` annotation array (given directly, by reference, or absent) -/
+theorem lazyInit_fine (d : Desc) (f : CellForm) : Fine (filtersOf d) (fun _ => True) (lazyInit f) := by
+  cases f with
+  | direct ids => exact annotsLoop_fine ids [] fun _ _ => trivial
+  | absent => exact okP_fine _ _ _
+  | ref r =>
+    refine .get _ _ _ trivial fun x hx => ?_
+    cases x with
+    | oof => exact absurd rfl hx
+    | ok v => exact okP_fine _ _ _
+    | err e =>
+      simp only
+      split
+      · exact okP_fine _ _ _
+      · exact errP_fine _ _ _
+
 theorem fromPrim_fine {d : Desc} (hok : okRanks d = true) (T id : Nat) (o : Obj) (hf : d.find id = some o) :
     Fine (filtersOf d) (fun r' => rk d r' < rk d id) (fromPrim d T id o.kind) := by
   have hdep : ∀ x, x ∈ depsOf d id → rk d x < rk d id := fun x hx => dep_lt hok hf hx
@@ -103,6 +153,8 @@ theorem fromPrim_fine {d : Desc} (hok : okRanks d = true) (T id : Nat) (o : Obj)
         | .pages p _ _ => if p = 0 then [] else [p]
         | .page p => [p]
         | .cat p => [p]
+        | .annot p => if p = 0 then [] else [p]
+        | .annots ids => ids
         | _ => []) := by
     unfold depsOf; rw [hf]
     try rfl
@@ -150,6 +202,31 @@ theorem fromPrim_fine {d : Desc} (hok : okRanks d = true) (T id : Nat) (o : Obj)
       | oof => exact absurd rfl hy
       | err e => exact errP_fine _ _ _
       | ok w => exact okP_fine _ _ _
+    · exact errP_fine _ _ _
+  split
+  · -- Annot
+    split
+    · rename_i page hk
+      unfold annotP
+      split
+      · exact okP_fine _ _ _
+      · rename_i hne
+        refine pageRefP_fine page _ (hdep page ?_) (okP_fine _ _ _)
+        rw [hdeps, hk]; simp [hne]
+    · exact errP_fine _ _ _
+  split
+  · -- Vec<MaybeRef<Annot>>
+    split
+    · rename_i ids hk
+      refine annotsLoop_fine ids [] fun a ha => hdep a ?_
+      rw [hdeps, hk]; simp [ha]
+    · rename_i page hk
+      unfold annotP
+      split
+      · exact okP_fine _ _ _
+      · rename_i hne
+        refine pageRefP_fine page _ (hdep page ?_) (okP_fine _ _ _)
+        rw [hdeps, hk]; simp [hne]
     · exact errP_fine _ _ _
   · exact errP_fine _ _ _
 
